@@ -6,6 +6,7 @@ import (
 	"io"
 	"strings"
 
+	"github.com/freeconf/yang/fc"
 	"github.com/freeconf/yang/meta"
 	"github.com/freeconf/yang/node"
 	"github.com/freeconf/yang/patch/xml"
@@ -73,12 +74,26 @@ func (x *XmlNode) Child(r node.ChildRequest) (node.Node, error) {
 		// The XML elements representing list entries MAY be interleaved with elements
 		// for siblings of the list
 		for ndx >= 0 {
+			if err := x.Nodes[ndx].checkNotText(r.Meta); err != nil {
+				return nil, err
+			}
 			found = append(found, x.Nodes[ndx])
 			ndx = x.Find(ndx+1, r.Meta)
 		}
 		return &XmlNode{XMLName: x.XMLName, Nodes: found}, nil
 	}
+	if err := x.Nodes[ndx].checkNotText(r.Meta); err != nil {
+		return nil, err
+	}
 	return x.Nodes[ndx], nil
+}
+
+// a container or list entry holds elements, text in their place is a document for another schema
+func (x *XmlNode) checkNotText(m meta.Definition) error {
+	if len(x.Nodes) == 0 && x.ContentTrim() != "" {
+		return fmt.Errorf("%w. element %s holds text where %s has child nodes", fc.BadRequestError, x.XMLName.Local, m.Ident())
+	}
+	return nil
 }
 
 func (x *XmlNode) Next(r node.ListRequest) (node.Node, []val.Value, error) {
